@@ -212,6 +212,17 @@ func (g *Gen) runOnce() {
 		env.preferParams = true
 	}
 	for _, en := range con.Ensures {
+		// vacuity cover: the premise of an implication-shaped postcondition must be reachable
+		// (a contradiction among axioms / assumed contracts would otherwise "prove" it)
+		if b, ok := en.Expr.(*CBinary); ok && b.Op == "==>" {
+			prem := env.evalBool(b.X)
+			props := con.Props
+			if len(en.Props) > 0 {
+				props = en.Props
+			}
+			g.obls = append(g.obls, &Obligation{Name: g.fnName() + "/vacuity/premise of " + en.Label + " reachable", Kind: "vacuity", Fn: g.fnName(), Props: props,
+				Reach: g.define("r", "Bool", and(exit.reach, prem)), Goal: "false", Expect: "sat"})
+		}
 		goal := env.evalBool(en.Expr)
 		g.oblige(exit, "ensures", g.fnName()+"/ensures/"+en.Label, goal, en, nil)
 	}
